@@ -71,3 +71,44 @@ def c05(run, scratch):
         "well-formedness of a traced line is decided by the TLA+ printer applied to the AST guessed by the TLA+ parser",
     ]
 REPLAYERS["MC_Syntax"] = lambda run, scratch, rec: replay_cases(run, scratch, "MC_Syntax", [rec["case"]], "syntax")
+
+
+# ---------------------------------------------------------------------------------------------
+# C06 parsing is total and a bad line never affects the lines after it
+# ---------------------------------------------------------------------------------------------
+def _stream_corrupt(ev):
+    # duplicate the recorded items of the whole string: breaks L4 (and usually L2)
+    ev["items"] = ev["items"] + ev["items"] + [{"k": "err", "line": [120]}]
+    return ev
+
+
+@prop("C06")
+def c06(run, scratch):
+    thorough = run.tier == "thorough"
+    cases = tlc_cases(run, scratch, "MC_Stream", "MC_Stream",
+                      cfg="MC_Stream_thorough.cfg" if thorough else "MC_Stream.cfg",
+                      workers=14 if thorough else 10, timeout=3000)
+    run.exhaustive = True
+    # sanity of the model itself: with the pinned snapshot's unbounded scan TLC must see the defect
+    r = run_tlc(scratch, "MC_Stream", cfg="MC_Stream_pinned.cfg", workers=4, timeout=600)
+    if not r.violation:
+        raise ToolError("MC_Stream_pinned: the model no longer exhibits the unbounded sourceFile scan")
+    run.steps.append({"step": "MC_Stream_pinned", "expected_counterexample_found": True,
+                      "states_generated": r.generated})
+    cpath = scratch.path("stream-cases.ndjson")
+    from .core import write_ndjson
+    write_ndjson(cpath, cases)
+    events = harness_trace(scratch, "stream", "stream",
+                           ["--seed", run.seed, "--n", 6000 if thorough else 1500, "--cases", cpath,
+                            "--files", ",".join(SMALL_CORPUS)])
+    for ev in events[:1] + events[len(cases):len(cases) + 2]:
+        run.sample({"src": b2s(ev["src"])[:200], "items": [it["k"] for it in ev["items"]][:12],
+                    "splits": [s["k"] for s in ev["splits"]]})
+    validate_pure_trace(run, scratch, "Trace_Stream", "Trace_Stream", events, workers=14 if thorough else 10,
+                        timeout=3000, corrupt=_stream_corrupt,
+                        canary_pred=lambda ev: len(ev["splits"]) > 0 and len(ev["items"]) > 0,
+                        signature=lambda ev: {"src": b2s(ev["src"])[:120]})
+    run.extra["exhaustive_note"] = ("MC_Stream enumerates every string within its bounds; every string up to the "
+                                    "emit bounds is replayed into the real iterator; generated/corpus inputs are sampled")
+    run.assumptions += ["TLC + Json module", "harness records what iter() yields (enc.rs, canary-checked)",
+                        "L4 is read on Ok records and non-blank error lines (see StreamLaws.tla)"]
